@@ -46,10 +46,14 @@ type SiteTable struct {
 
 const stackDepth = 24
 
-// siteLoc: a call site = (function that makes the call, line); api: made on behalf of an API call of the harness.
+// siteLoc: a call site = the whole call PATH inside package tasklane, from the function that calls the context up
+// to the goroutine's root function (lane goroutine) or to the API function the harness called (api), as
+// "fn:line<fn:line<...". The path, not the immediate caller, identifies the site: one helper such as
+// `func (tl *TaskLane) ended() bool` used by the queue loop, the worker loop and PushTask is reached from
+// different places, and each of them is a different point of the protocol.
 type siteLoc struct {
-	fn   string
-	line int
+	fn   string // the immediate caller (for the description only; part of path)
+	path string
 	api  bool
 }
 
@@ -89,22 +93,24 @@ func outsideIn(inner []string) []string {
 func locate(pcs []uintptr) (loc siteLoc, chain []string, ok bool) {
 	frames := runtime.CallersFrames(pcs)
 	var lane []string
+	var path strings.Builder
 	first := true
 	for {
 		fr, more := frames.Next()
 		if first {
-			loc.fn, loc.line = fr.Function, fr.Line
+			loc.fn = fr.Function
 			first = false
 		}
 		if strings.Contains(fr.Function, harnessPkg) {
 			if len(lane) == 0 {
 				return loc, nil, false // the harness itself asked
 			}
-			loc.api = true
+			loc.api, loc.path = true, path.String()
 			return loc, []string{lane[len(lane)-1]}, true
 		}
 		if strings.Contains(fr.Function, lanePkg) {
 			lane = append(lane, fr.Function)
+			fmt.Fprintf(&path, "%s:%d<", fr.Function, fr.Line)
 		}
 		if !more {
 			break
@@ -113,6 +119,7 @@ func locate(pcs []uintptr) (loc siteLoc, chain []string, ok bool) {
 	if len(lane) == 0 {
 		return loc, nil, false
 	}
+	loc.path = path.String()
 	return loc, outsideIn(lane), true
 }
 
@@ -130,7 +137,7 @@ func (st *SiteTable) key(pcs [stackDepth]uintptr, n int, live bool) string {
 	defer st.mu.Unlock()
 	if st.frozen {
 		if k, ok := st.cache[pcs]; ok {
-			if live && k[1] == '?' && k[0] != 'X' {
+			if live && k[1] == '?' && (k[0] == 'Q' || k[0] == 'W') {
 				st.drift++
 			}
 			return k
@@ -152,8 +159,11 @@ func (st *SiteTable) key(pcs [stackDepth]uintptr, n int, live bool) string {
 		return "C?" // calibrating: nobody parks, labels do not exist yet
 	}
 	if st.frozen {
+		// a site the calibration run never reached is classified by ROLE: a call made inside an API call of the harness
+		// is a push-role call wherever it sits (e.g. a branch only taken with SetTimeout(<= 0)) and costs nothing but a
+		// park point; only an unknown site of a lane goroutine means the calibration no longer covers the protocol
 		k := string([]byte{st.kindOf(loc, chain), '?'})
-		if live {
+		if live && !loc.api {
 			st.drift++
 		}
 		st.cache[pcs] = k
